@@ -4,3 +4,20 @@ check("C01", "exploration", "runtime monitoring: delivery oracle (result vs. dev
       "'held' means held on those executions.",
       "Trusted: the simulator's model of adbd stream behaviour (DESIGN.md 2.2), the harness decoder (Python's own utf8/backslashreplace), virtual clock.",
       "DESIGN.md section 4 C01")
+check("C02", "exploration", "runtime monitoring: independent stream parser on every bulk_write byte + direct pack/unpack/checksum oracle",
+      "Every byte the library hands to the transport in thousands of generated sessions (all APIs, both implementations) is parsed by an independent "
+      "decoder written from the AOSP constants; AdbMessage.pack/unpack/checksum are additionally driven directly over boundary and random 32-bit arguments "
+      "and payloads up to 17 MiB (byte sum > 2^32).",
+      "Trusted: vlib/wire.py (header layout and command words from AOSP), Python's struct module.",
+      "DESIGN.md section 4 C02")
+check("C03", "exploration", "runtime monitoring: over-read monitor at the transport, differential whole-vs-fragmented runs, on-the-wire corruption injection",
+      "The transport knows where the current device packet ends and checks every bulk_read request against it; each scenario is re-run under 1-byte/random/n-1 "
+      "fragmentation with empty reads and with a forced read boundary at every offset of the device byte stream, and must give identical results and host packets; "
+      "single byte/bit payload and checksum-field corruptions and unknown command words must raise the documented errors.",
+      "Trusted: simulator determinism across the paired runs (same seed, production of device packets independent of read sizes).",
+      "DESIGN.md section 4 C03")
+check("C04", "exploration", "runtime monitoring: per-stream protocol state machine over both packet directions, closure check at API return",
+      "A StreamMonitor implementing the AOSP protocol.txt stream rules watches every host packet against the simulator's stream state across random sequences of "
+      "all ten operations; the simulator stalls like adbd when an OKAY is missing.",
+      "Trusted: the simulator's stream model (one WRTE in flight, CLSE answering rules) as described in DESIGN.md 2.2.",
+      "DESIGN.md section 4 C04")
